@@ -192,6 +192,7 @@ for (hn, cl) in [("u_apply_match_flat", "apply_match (flat buffer) = byte-by-byt
         kind="U", tier="quick" if hn != "u_copy_ring" else "thorough", timeout=1200, mem_gb=16, functions=["inflate::core::apply_match", "inflate::core::transfer"])
 
 # ----------------------------------------------------------------- S tier
+CUT_STUBS_R = ["init_tree -> mzcore :: verif :: cut_init_tree", "decode_huffman_code -> mzcore :: verif :: cut_decode_huffman_code", "decompress_fast -> mzcore :: verif :: cut_decompress_fast"]
 TERMINALS = ["s_done_forever", "s_block_type_unexpected", "s_bad_code_size_sum", "s_bad_dist_or_literal_table_length", "s_bad_total_symbols",
              "s_bad_zlib_header", "s_distance_out_of_bounds", "s_bad_raw_length", "s_bad_code_size_dist_prev_lookup", "s_invalid_litlen", "s_invalid_dist"]
 for i, hn in enumerate(TERMINALS):
@@ -206,15 +207,17 @@ for hn in ["s_bad_param_start_l0", "s_bad_param_start_l3", "s_bad_param_block_he
     add("steps::" + hn, ["C05"],
         "unusable buffer geometry (ring length not a power of two, or out_pos > length) => BadParam (0,0) with every decoder register and every buffer byte untouched, from the injected automaton state",
         "slice length %s (concrete), out_pos and budget arbitrary usize, all 2^8 flag sets, decoder fully symbolic, geometry assumed bad" % hn[-1],
-        kind="S", tier="quick" if hn in ("s_bad_param_start_l3", "s_bad_param_match_copy_l8", "s_bad_param_failed_l1") else "thorough", timeout=900,
-        functions=["inflate::core::decompress_with_limit (parameter check)"])
+        kind="S", tier="quick" if hn in ("s_bad_param_raw_memcpy_l6", "s_bad_param_decode_litlen_l7", "s_bad_param_failed_l1", "s_bad_param_done_l4") else "thorough",
+        timeout=1500, mem_gb=12 if hn in ("s_bad_param_raw_memcpy_l6", "s_bad_param_decode_litlen_l7", "s_bad_param_failed_l1", "s_bad_param_done_l4") else 30,
+        heavy=hn not in ("s_bad_param_raw_memcpy_l6", "s_bad_param_decode_litlen_l7", "s_bad_param_failed_l1", "s_bad_param_done_l4"),
+        functions=["inflate::core::decompress_with_limit (parameter check)"], stubs=CUT_STUBS_R)
 
-for (hn, tier, desc) in [("w_inflate_c_none_2_2", "quick", "flush None, 2 input bytes, 2 output bytes"), ("w_inflate_c_finish_2_1", "quick", "first-call Finish, 2 input bytes, 1 output byte"),
-                         ("w_inflate_c_sync_0_2", "quick", "flush Sync, empty input, 2 output bytes"), ("w_inflate_c_full_1_1", "quick", "flush Full")]:
+for (hn, tier, desc) in [("w_inflate_c_none_2_2", "quick", "flush None, 2 input bytes, 2 output bytes"), ("w_inflate_c_finish_2_1", "thorough", "first-call Finish, 2 input bytes, 1 output byte"),
+                         ("w_inflate_c_sync_0_2", "thorough", "flush Sync, empty input, 2 output bytes")]:
     add("wrap_inflate::" + hn, ["C13", "C09"] if "full" not in hn else ["C13"],
         "real inflate(), first call, any core behaviour within D1-D7 (" + desc + "): counts <= offered; delivered bytes = next plaintext bytes; StreamEnd <=> core done and all delivered; "
         "progress; Full => Stream error with nothing changed; format -> decoder flags (zlib parsed iff zlib formats, checksum ignored iff not Zlib, HAS_MORE_INPUT iff not Finish)",
-        "3 data formats (symbolic), sizes/flush fixed as named, core produces <= 2 bytes", kind="W", tier=tier, timeout=1200, mem_gb=20, heavy=True,
+        "3 data formats (symbolic), sizes/flush fixed as named, core produces <= 2 bytes", kind="W", tier=tier, timeout=1800, mem_gb=30, heavy=True,
         functions=INFL_FUNCS, stubs=[DSTUB], assumes=D_ASSUME, stubs_change_behaviour=True)
 for (hn, tier, desc) in [("e_comp0_sync_raw_1_1", "quick", "raw, 1 byte + Sync, then 1 byte + Finish"), ("e_comp0_full_zlib_1_1", "quick", "zlib, 1 byte + Full, then 1 byte + Finish"),
                          ("e_comp0_sync_zlib_0_1", "thorough", "zlib, Sync before any input, then 1 byte + Finish"), ("e_comp0_none_then_finish_raw_2_0", "thorough", "raw, 2 bytes with no flush, then Finish")]:
@@ -223,6 +226,41 @@ for (hn, tier, desc) in [("e_comp0_sync_raw_1_1", "quick", "raw, 1 byte + Sync, 
         "all input so far; Sync/Full end with 00 00 FF FF on a byte boundary, unwritten_bit_count() = 0; running Adler = Adler-32 of consumed input; the second call completes ONE stream "
         "(header once, exactly one final block) that decodes to the whole input; counts within offered buffers",
         "symbolic input bytes, 40-byte output buffer, nothing stubbed", kind="E", tier=tier, timeout=2400, mem_gb=30, heavy=True, functions=COMP_FUNCS)
+
+MARKERS = ["compress_fast -> dcore :: verif :: mark_compress_fast", "compress_normal -> dcore :: verif :: mark_compress_normal",
+           "compress_stored -> dcore :: verif :: mark_compress_stored", "flush_block -> dcore :: verif :: mark_flush_block"]
+for (hn, tier, desc) in [("w_compress_drain_r2_o1", "quick", "2 bytes pending, 1 byte of output space"), ("w_compress_drain_r2_o4", "quick", "2 bytes pending, 4 bytes of space"),
+                         ("w_compress_drain_r0_o4", "thorough", "nothing pending (finished stream or refused call)"), ("w_compress_drain_r3_o3", "thorough", "3 bytes pending, exact fit")]:
+    add("wrap_deflate::" + hn, ["C02", "C14"],
+        "real compress()/compress_inner prologue from a compressor whose scalar state is arbitrary (" + desc + "): a previous non-Okay status or a non-Finish request after Finish => "
+        "BadParam (0,0), nothing touched, no back end run; otherwise pending output is delivered first: no back end, no input consumed, exactly min(space, pending) bytes of the "
+        "internal buffer copied in order, cursors advanced; Done <=> stream finished and nothing left; the remembered status always equals the returned one",
+        "level 0..2, zlib; previous flush / finished flag / previous status / new flush (8 modes) / input length 0..2 symbolic; pending bytes symbolic",
+        kind="W", tier=tier, timeout=900, mem_gb=16, functions=["deflate::core::compress", "compress_inner", "flush_output_buffer"], stubs=MARKERS,
+        assumes=["back ends and flush_block are marker stubs (not reached on these paths)"])
+add("wrap_deflate::w_compress_tail", ["C12", "C02"],
+    "real compress_inner epilogue: with nothing pending and an empty look-ahead a flush request runs the final flush_block exactly once (never for flush None or while look-ahead remains); "
+    "Finish marks the stream finished (Done); a Full flush cuts history: dictionary size 0 and every hash-chain head/link cleared (universally quantified index); every other mode keeps the dictionary size",
+    "levels 1..2, raw; dictionary size 0..=32768 and look-ahead 0..=2 symbolic, all 8 flush modes; back ends / flush_block marker stubs; slice::fill modelled as whole-array assignment",
+    kind="W", timeout=900, mem_gb=16, functions=["deflate::core::compress", "compress_inner", "flush_output_buffer"],
+    stubs=MARKERS + ["fill -> fill_model"], assumes=["<[T]>::fill on the 32 K-element arrays = whole-array assignment (model stub)"])
+for (hn, tier, desc) in [("w_inflate_c2_finish_finish", "quick", "Finish(2 in,1 out) then Finish(1 in,2 out)"), ("w_inflate_c2_none_none", "thorough", "None(1,1) then None(1,2)"),
+                         ("w_inflate_c2_none_finish", "thorough", "None(2,1) then Finish(0,2)")]:
+    add("wrap_inflate::" + hn, ["C13"],
+        "real inflate(), two calls (" + desc + "), any core behaviour within D1-D7: all per-call clauses plus the history-dependent ones: data errors and the Finish buffer error are sticky, "
+        "pending window bytes are delivered before decoding more, stream-end is stable, and the core is always handed a buffer that still holds the plaintext it produced so far "
+        "(window integrity: a first-call Finish that ran out of space must not be resumed on the internal window)",
+        "3 data formats symbolic; sizes and flush values concrete as named; core produces <= 2 bytes per call", kind="W", tier=tier, timeout=2400, mem_gb=40, heavy=True,
+        functions=INFL_FUNCS, stubs=[DSTUB], assumes=D_ASSUME, stubs_change_behaviour=True)
+
+for (hn, tier, desc) in [("w_inflate_step_early_ofs0", "quick", "window offset 0"), ("w_inflate_step_early_wrap", "thorough", "window offset 32766 (hand-off wraps at 32 KiB)")]:
+    add("wrap_inflate::" + hn, ["C13"],
+        "inductive step of the real inflate() for every branch that must not reach the core, from an ARBITRARY wrapper state (" + desc + "): Full => stream error, state untouched; failed stream => "
+        "sticky Data error (Buf after a truncated Finish), nothing consumed/written; non-Finish after Finish => stream error; pending window bytes handed out first, in order, "
+        "min(pending, space) of them, ring offset advanced modulo 32768; stream-end exactly when the decoder was done and nothing stays pending; the core is never called",
+        "all protocol fields symbolic (flags, last status -4..2, format), pending 0..=2 symbolic bytes, input 0..=2, output 0..=3, 4 flush values; invariant: fresh state has nothing pending, pending bytes inside the ring",
+        kind="W", tier=tier, timeout=2400, mem_gb=30, heavy=True, functions=INFL_FUNCS, stubs=[DSTUB],
+        assumes=["wrapper invariant: first_call => nothing pending and not flushed; dict_ofs + dict_avail <= 32768"], stubs_change_behaviour=True)
 
 
 def all_harnesses():
